@@ -14,7 +14,7 @@ COMMON_NOTE = ("Trusted base: go/types, golang.org/x/tools v0.29.0 (go/packages,
 claimed = {
  "C15": dict(
    technique="static error-flow analysis over go/ssa + VTA call graph (every call into the write closure consumes its error; short-count comparison at the single destination Write)",
-   text="Decides the property (sufficient, not only necessary): by induction over the call graph every error or short count returned by the destination io.Writer reaches the caller of WriteTo/WriteObject/Encode/ToBytes, for every value and every index k of the failing Write, because every one of the ~70 call sites in the write closure provably consumes the error component. A write issued in a defer / go statement is an undischarged obligation (its results are discarded by the language). No fault is injected and no code is run.",
+   text="Decides the property (sufficient, not only necessary): by induction over the call graph every error or short count returned by the destination io.Writer reaches the caller of WriteTo/WriteObject/Encode/ToBytes, for every value and every index k of the failing Write, because every one of the ~70 call sites in the write closure provably consumes the error component. A write issued in a defer / go statement is an undischarged obligation (its results are discarded by the language). A return on the side of a test where the error is known to be nil forwards nothing, and the short-count test must not be bypassed when the writer reported an error. No fault is injected and no code is run.",
    design_ref="DESIGN.md §3 C15, §2.3, Appendix A.4",
    note="Assumes a path on which no Write fails needs no error, and that the writer reports failure through its results (not by panicking)."),
  "C13": dict(
@@ -24,7 +24,7 @@ claimed = {
    note="Does not decide that bytes emitted for supported values are right (C01/C02), nor panics inside package reflect for exotic map keys."),
  "C07": dict(
    technique="abstract interpretation of the int/long codecs over interval sets (go/ssa, path-sensitive) against a frozen Hessian 2.0 form table; bit-provenance abstract domain composing each decoder branch with the encoder's octet terms; conversion lossiness on every integer of the input value",
-   text="Decides structural necessary conditions, not the behaviour: the input sets of the encoder's forms are computed symbolically for all 2^32 / 2^64 inputs and must equal the specification's shortest-form ranges; first-octet arithmetic, big-endian octet windows, decoder tag sets and payload counts must agree with the table and with each other; every integer conversion in the kind dispatch must be value-preserving on the values reaching it (a same-width signed reinterpretation only for the widest wire integer, and only if the field decoder inverts it); and (R6) per form and per tag the decoder's result, with the stream octets replaced by the encoder's octet terms, equals the encoder's input bit for bit on all inputs of the form (decided in a bit-provenance domain without a solver: sign/zero extension, octet order, tag zero points). Together R1-R3+R6 decide the int/long codec pair exactly; what reaches the codecs from reflect (R4) is decided as a necessary condition.",
+   text="Decides structural necessary conditions, not the behaviour: the input sets of the encoder's forms are computed symbolically for all 2^32 / 2^64 inputs and must equal the specification's shortest-form ranges; first-octet arithmetic, big-endian octet windows, decoder tag sets and payload counts must agree with the table and with each other; every integer conversion in the kind dispatch must be value-preserving on the values reaching it (a same-width signed reinterpretation only for the widest wire integer, and only if the field decoder inverts it); a range test in front of a narrowing conversion refuses only values that do not fit (MinInt32/MaxInt32 themselves pass); and (R6) per form and per tag the decoder's result, with the stream octets replaced by the encoder's octet terms, equals the encoder's input bit for bit on all inputs of the form (decided in a bit-provenance domain without a solver: sign/zero extension, octet order, tag zero points). Together R1-R3+R6 decide the int/long codec pair exactly; what reaches the codecs from reflect (R4) is decided as a necessary condition.",
    design_ref="DESIGN.md §3 C07, §2.2, §3.0",
    note="The frozen table (hlint/spec.go) is trusted; reflect.Value.Int()/Uint() are assumed to return values within the range of the receiver's Kind."),
  "C08": dict(
@@ -49,12 +49,12 @@ claimed = {
    note="Does not decide byte-for-byte equality of a probe call against a fresh instance for all histories."),
  "C03": dict(
    technique="exact tag-set abstract interpretation of the dispatchers and scalar decoders over go/ssa against the frozen 256-entry Hessian 2.0 bytecode table; path rules on chunk loops and list loops",
-   text="Decides structural necessary conditions, not the behaviour: all 256 first octets resolve (first match, arm order honoured) to the reader of the production the specification assigns; every scalar decoder accepts every tag of every spec form and pulls exactly its payload; no fresh-tag read can follow a consumed octet that may have been that value's first octet; typed map/list headers read the type through the type reader; chunk buffers are sized from each chunk header; variable-length lists leave on the terminator. Equality of decodings across encodings is NOT decided.",
+   text="Decides structural necessary conditions, not the behaviour: all 256 first octets resolve (first match, arm order honoured) to the reader of the production the specification assigns; every scalar decoder accepts every tag of every spec form and pulls exactly its payload; no fresh-tag read can follow a consumed octet that may have been that value's first octet; typed map/list headers read the type through the type reader; chunk buffers are sized from each chunk header; variable-length lists leave on the terminator. (R5) only the non-final chunk form is followed by another chunk: at every read of a next-chunk tag the tag of the chunk just consumed cannot be a final form; (R7) a table-index guard refuses only invalid indices: on every error path that constrained the index without passing the access the index is negative or known to be >= the table length (index 0, the first type/class/object, is accepted). Equality of decodings across encodings is NOT decided.",
    design_ref="DESIGN.md §3 C03, §3.0, Appendix A.1/A.3/A.7",
    note="The frozen table (hlint/spec.go) is transcribed from the specification and trusted. Known finding: the compact date x4b is read as seconds where the grammar says minutes (see known_findings.json)."),
  "C06": dict(
    technique="static taint fixpoint over go/ssa (concrete types flowing into interface{} results), codec-pair octet agreement, loop-exit classification, error-flow at tag positions, reachability from the streaming entry points",
-   text="Decides structural necessary conditions, not equality of the n values: no internal carrier (reflect.Value, *_refHolder) can flow into the result of a documented decode entry point or into a returned container; per form the encoder's octets equal the octets the decoder pulls; container loops leave only through counter/flag/error/terminator; failed tag reads are errors; the streaming entry points never reset per-stream tables and no buffered reader wraps a caller-supplied stream; every value read for a container is stored before the next one is read; each chunk is read with a buffer of its own length; every container and back-reference is framed as exactly one production.",
+   text="Decides structural necessary conditions, not equality of the n values: no internal carrier (reflect.Value, *_refHolder) can flow into the result of a documented decode entry point or into a returned container; per form the encoder's octets equal the octets the decoder pulls; container loops leave only through counter/flag/error/terminator; failed tag reads are errors; the streaming entry points never reset per-stream tables and no buffered reader wraps a caller-supplied stream; every value read for a container is stored before the next one is read; each chunk is read with a buffer of its own length; every container and back-reference is framed as exactly one production. (R4, generalised) every call on the stream-read closure consumes its error — returned, or tested with every path from the failing side ending in a non-nil error, the io.EOF terminator idiom excepted — so a truncated or failed read is never a shorter value; a value ends with its final chunk (nothing further is read after a final or compact form).",
    design_ref="DESIGN.md §3 C06, Appendix A.6/A.8",
    note="ReadData/ReadList/ReadLenTagObject are exported internals (listed exception with reason)."),
  "C10": dict(
@@ -69,32 +69,32 @@ claimed = {
    note="Registrars are discovered structurally (the function updating the Encoder's non-string-keyed map field / appending to the Decoder's []reflect.Value field)."),
  "C05": dict(
    technique="path enumeration over the field loop of readObject, value-flow of the destination field index, dispatch maps for x60-x6f/'O' in three dispatchers, interval check of the compact instance header, two-sided index-guard rule (go/ssa)",
-   text="Decides structural necessary conditions, not field values over permutations: every iteration path of the definition-driven field loop consumes exactly one wire value; the destination index is findField(wire name of this iteration) and the helper compares name and capitalised name; x60..x6f and 'O' reach the object readers in ReadData, readStruct and readObjectDef; the compact instance header is emitted only with the untruncated index proven in [0,15]; both object readers guard the class index on both sides; the instance is reflect.New(mapped type); (R5) reading or skipping a field never truncates, replaces or deletes from the decoder's numbering tables.",
+   text="Decides structural necessary conditions, not field values over permutations: every iteration path of the definition-driven field loop consumes exactly one wire value; the destination index is findField(wire name of this iteration) and the helper compares name and capitalised name; x60..x6f and 'O' reach the object readers in ReadData, readStruct and readObjectDef; the compact instance header is emitted only with the untruncated index proven in [0,15]; both object readers guard the class index on both sides; the instance is reflect.New(mapped type); (R5) reading or skipping a field never truncates, replaces or deletes from the decoder's numbering tables. (R6) the loops that name, write, look up and read the fields of a class visit every field exactly once.",
    design_ref="DESIGN.md §3 C05",
    note="A value-consuming call is a call to a package function from which readTag/getTag is reachable."),
  "C01": dict(
    technique="static table extraction over go/ssa: reflect.Kind→codec tables of encoder and field decoder from refined Kind() facts, first-octet tag sets of every emission vs first-match dispatch maps, interval check of compact headers, converted-sink rule",
-   text="The behaviour (round trip over all values) is NOT decided. Decides necessary conditions, each with a concrete failing value when violated: per scalar kind the encoder's and the field decoder's wire codec agree and the typed reflect setter matches the kinds reaching it; every first octet the encoder can emit resolves to the reader of its production in the value dispatcher and is accepted by the struct/list/map field dispatchers; compact list/instance headers carry the untruncated count proven in range; raw reflect sinks in container readers only store converted or interface-typed values; type slots of typed list/map headers carry a literal, or every literal is numbered the way the decoder numbers it; (R5) no reflect.Value can flow into a reflect.ValueOf argument (a carrier is never wrapped twice); (R6) the zero reflect.Value persisted in a field meets an IsValid() test before any accessor. All obligations of C04, C05, C07, C08, C09, C10 and C16 are evaluated as shared clauses.",
+   text="The behaviour (round trip over all values) is NOT decided. Decides necessary conditions, each with a concrete failing value when violated: per scalar kind the encoder's and the field decoder's wire codec agree and the typed reflect setter matches the kinds reaching it; every first octet the encoder can emit resolves to the reader of its production in the value dispatcher and is accepted by the struct/list/map field dispatchers; compact list/instance headers carry the untruncated count proven in range; raw reflect sinks in container readers only store converted or interface-typed values; type slots of typed list/map headers carry a literal, or every literal is numbered the way the decoder numbers it; (R5) no reflect.Value can flow into a reflect.ValueOf argument (a carrier is never wrapped twice); (R6) the zero reflect.Value persisted in a field meets an IsValid() test before any accessor. (R7) every error-returning call inside the package that is neither a destination write nor on the stream-read closure consumes its error (a failed conversion or binding surfaces, a successful one continues; a field-lookup miss is the unknown-field case and its index is used on the success side only); (R8) every counted loop over a collection indexed by its induction variable starts at 0, advances by 1 and stops at the size; (R9) a conversion loop writes its destination slot on every path of an iteration and from a value computed in that iteration; (R10) a setter (dest, value reflect.Value) writes or hands on its destination on every path on which the value is valid. All obligations of C04, C05, C07, C08, C09, C10 and C16 are evaluated as shared clauses.",
    design_ref="DESIGN.md §3 C01, §10",
    note="Equality of field contents, element order and map entries is not decided; clauses shared with C04/C07/C08/C09 are reported there."),
  "C02": dict(
    technique="abstract interpretation of every encoder form and container header over go/ssa against the frozen Hessian 2.0 table; path rules for definition-before-instance, per-iteration value counts and map framing; value-flow of names and ordinals",
-   text="Whole-stream well-formedness under an independent parser is NOT decided (that needs emitted bytes). Decides per-form and per-header conformance with the frozen table (tags, octet counts, value ranges, windows, chunk arithmetic), count = loop bound, one value per iteration, class definition before instance with index = table position, lower-cased field names in declaration order, class name from the name map, Z on every successful map path, ref ordinal provenance, type slots (literal or numbered like the decoder numbers them; one name across the forms of a writer), and (R8) every successful path of a container writer spells exactly one production of the grammar (token string of its emissions matched as a whole).",
+   text="Whole-stream well-formedness under an independent parser is NOT decided (that needs emitted bytes). Decides per-form and per-header conformance with the frozen table (tags, octet counts, value ranges, windows, chunk arithmetic), count = loop bound, one value per iteration, class definition before instance with index = table position, lower-cased field names in declaration order, class name from the name map, Z on every successful map path, ref ordinal provenance, type slots (literal or numbered like the decoder numbers them; one name across the forms of a writer), and (R8) every successful path of a container writer spells exactly one production of the grammar (token string of its emissions matched as a whole); (R9) the encoder's counted loops over fields, elements and keys visit every member exactly once.",
    design_ref="DESIGN.md §3 C02, §3.0",
    note="Known finding (recorded, not repaired): the compact date x4b carries seconds where the grammar says minutes. List type-name rewriting is not decided."),
  "C09": dict(
    technique="path-sensitive abstract interpretation of the string/binary encoders as productions over views of the input (header octets, payload segments with affine bounds, 0/1/2 chunk iterations) and of the length readers; unit-of-length and payload-reader rules by role; chunk-buffer, loop-exit and output-provenance path rules",
-   text="Content equality for all contents is NOT decided. Decides: lengths count runes of the []rune conversion (resp. octets), chunk cuts index that slice, payload is read one rune/octet per counted unit; every form's tag set, length range and header windows conform; offset and remaining length step by the chunk size under the guard remaining > chunk; readers compute in-range lengths and size buffers per chunk; because the encoder emits N for the empty string no container loop may end on a nil element/key; a null element is stored, never dropped (no cycle from an element read back to itself without a store); the decoded []byte is allocated in the call (R4).",
+   text="Content equality for all contents is NOT decided. Decides: lengths count runes of the []rune conversion (resp. octets), chunk cuts index that slice, payload is read one rune/octet per counted unit; every form's tag set, length range and header windows conform; offset and remaining length step by the chunk size under the guard remaining > chunk; readers compute in-range lengths and size buffers per chunk; because the encoder emits N for the empty string no container loop may end on a nil element/key; a null element is stored, never dropped (no cycle from an element read back to itself without a store); only the non-final chunk form (x41 / x52) is followed by another chunk of the same value; the decoded []byte is allocated in the call (R4).",
    design_ref="DESIGN.md §3 C09",
    note="Go's []rune/string conversions are trusted to be inverse on valid UTF-8."),
  "C14": dict(
    technique="two-sided index-guard rule (intervals + dominating comparison facts), interval bound of every non-constant allocation with call-site context and return-range summaries, stream-loop progress rule, recover-boundary reachability over the VTA call graph; panic-site census",
-   text="General panic freedom and resource bounds of the reflective decoder are NOT decided. Decides: every per-stream table access has an index proven ≥0 and dominated by a length comparison; every non-constant allocation on the decode path is proven ≤ 2^20 elements or sized by a container already in memory; every stream-reading loop passes, on each iteration path, a read whose error ends it; loop exits and tag-read errors follow C06.R3/R4; every documented decode entry point is covered by a deferred recover that sets its error result and does not re-panic; (R5) nothing reachable from a decode entry point blocks (wait, sleep, blocking channel operation) and every lock taken there is released by a deferred unlock, so a recovered panic cannot leave an instance locked; (R6) no operand that can hold decoded (possibly cyclic) data reaches a formatter or logger with a verb that walks it — fmt recurses without a visited set and a list containing itself exhausts the stack, which no recover can catch.",
+   text="General panic freedom and resource bounds of the reflective decoder are NOT decided. Decides: every per-stream table access has an index proven ≥0 and dominated by a length comparison; every non-constant allocation on the decode path is proven ≤ 2^20 elements or sized by a container already in memory; every stream-reading loop passes, on each iteration path, a read whose error ends it; loop exits and tag-read errors follow C06.R3/R4; every documented decode entry point is covered by a deferred recover that sets its error result and does not re-panic; (R5) nothing reachable from a decode entry point blocks (wait, sleep, blocking channel operation) and every lock taken there is released by a deferred unlock, so a recovered panic cannot leave an instance locked; (R6) no operand that can hold decoded (possibly cyclic) data reaches a formatter or logger with a verb that walks it — fmt recurses without a visited set and a list containing itself exhausts the stack, which no recover can catch. (R7) every loop on the decode path has an exit test that depends on something the loop changes (a loop-carried variable, an effectful call, memory the loop writes, a range iterator): no loop is left to spin.",
    design_ref="DESIGN.md §3 C14",
    note="Stack depth on deeply nested input and fatal runtime errors other than allocation by declared size are not covered."),
  "C16": dict(
    technique="dominance and value-flow rules over go/ssa on the extraction functions: visited cut-off on recursive calls, nil-pointer descent (sibling rule), paired map updates by term equality",
-   text="Decides structural necessary conditions, not closure of the maps for all types: each recursive call of the type walk on a struct field's type is dominated by a failed membership test and the insertion; the value walk recurses only under the extractor's verdict and each extractor inserts the key it found absent; empty slices/maps and nil pointers are descended through reflect.New of the element type; every name-map update has a type-map update with the same key term; loops of the value walk visit every element; (R5, a frame condition stricter than the property) no function the extraction reaches touches package-level state written after initialisation, so the maps are a function of the argument; (R2, path forms) every path of the value walk that establishes a container kind makes a recursive call (over the elements or over reflect.New of the element type), a path of the type walk that returns without recursion has excluded slice/array/map for the innermost type examined, and the visited mark is never deleted.",
+   text="Decides structural necessary conditions, not closure of the maps for all types: each recursive call of the type walk on a struct field's type is dominated by a failed membership test and the insertion; the value walk recurses only under the extractor's verdict and each extractor inserts the key it found absent; empty slices/maps and nil pointers are descended through reflect.New of the element type; every name-map update has a type-map update with the same key term; loops of the value walk visit every element; (R5, a frame condition stricter than the property) no function the extraction reaches touches package-level state written after initialisation, so the maps are a function of the argument; (R2, path forms) every path of the value walk that establishes a container kind makes a recursive call (over the elements or over reflect.New of the element type), a path of the type walk that returns without recursion has excluded slice/array/map for the innermost type examined, and the visited mark is never deleted. (R3 converse) every type recorded under a wire name beside a name map has a name-map entry with that wire name as its value on every path; (R6) the walks' counted loops visit every field and element; (R7) their loops make progress; (R8) every parameter of an exported mutator or constructor of the codec types is used (a registered map is the map the codec uses).",
    design_ref="DESIGN.md §3 C16",
    note="Interface-typed fields and Java-side naming expectations are not decided."),
 }
